@@ -543,16 +543,15 @@ func (rn *run) report(cc *cmpCtx, n uint64) {
 			classes = append(classes, "versions-differ")
 		}
 		switch {
-		case rn.compacted.Load():
-			// after a compaction the index was restarted under the running indexer: whatever the index
-			// kind, what differs now is attributed to that restart (cases that never compact judge the rest)
-			sig = "index/compaction-restart/entries-lost"
 		case ix.spec.Inj && ix.spec.TM != "" && dg.mdOnlyMarkers:
 			sig = "index/injective-mapping/prev-entry-with-metadata/stale-target-not-deleted"
 		case ix.spec.Inj && ix.spec.TM != "" && rn.cs.Bulk > 1:
 			sig = "index/injective-mapping/bulk>1/stale-target-not-deleted-or-wrong-target-deleted"
 		case ix.spec.TM == "" && ix.spec.SM == "" && rn.cs.Bulk > 1:
 			sig = "index/bulk>1/key-missing-or-aliased"
+		case rn.compacted.Load():
+			// no more specific class applies and the index was restarted by a compaction earlier in this case
+			sig = "index/compaction-restart/entries-lost"
 		default:
 			sig = fmt.Sprintf("index/%s/%s/content/%s", ix.spec.kind(), cc.maintClass(), strings.Join(classes, "+"))
 		}
